@@ -96,6 +96,16 @@ func c03Entry(item string, i int, nameClass string) model.Entry {
 		return model.Entry{Src: "links/*", Dst: base + name}
 	case "sizes-tree":
 		return model.Entry{Src: "sizes", Dst: base + name, Type: "tree"}
+	case "huge-noise":
+		return model.Entry{Src: "huge/noise.bin", Dst: base + name}
+	case "huge-zeros":
+		return model.Entry{Src: "huge/zeros.bin", Dst: base + name}
+	case "huge-tree":
+		return model.Entry{Src: "huge", Dst: base + name, Type: "tree"}
+	case "many-tree":
+		return model.Entry{Src: "many", Dst: base + name, Type: "tree"}
+	case "many-glob":
+		return model.Entry{Src: "many/d0?/f01*", Dst: base + name}
 	case "frac-file":
 		return model.Entry{Src: "share/f1024.bin", Dst: base + name, MTime: EntryMTime.Add(750 * time.Millisecond)}
 	case "frac-config":
@@ -219,6 +229,17 @@ func init() {
 						if !yield(C03Case{Shape: []string{it, "dir", "f1"}, Setting: s}) {
 							return
 						}
+					}
+				}
+			}
+			// large inputs: files beyond every compressor window, thousands of files (size sums, digests of every one)
+			for _, s := range sets {
+				if s.Only != "" && !env.Thorough() && s.Name != "deb.compression=zstd" && s.Name != "rpm.compression=xz" {
+					continue
+				}
+				for _, sh := range [][]string{{"huge-noise"}, {"huge-zeros"}, {"huge-tree", "f1"}, {"many-tree"}, {"many-glob", "dir"}, {"many-tree", "huge-noise", "symlink"}} {
+					if !yield(C03Case{Shape: sh, Setting: s}) {
+						return
 					}
 				}
 			}
